@@ -205,7 +205,9 @@ def rand_metadata(rng):
     if rng.random() < 0.5:
         return dict(md=0)
     title = rng.choice([None, b"", b"T", "Tïtle é中".encode(), bytes(rng.choice(b"abcdefgh ") for _ in range(rng.randrange(1, 60)))])
-    ctime = rng.choice([None, 0, 86399, 951782400, 1700000000, 4102444800, rng.randrange(0, 253402300800)])
+    # incl. years of five and more digits (the date text is then longer than 20 bytes)
+    ctime = rng.choice([None, 0, 86399, 951782400, 1700000000, 4102444800, rng.randrange(0, 253402300800),
+                        253402300800, rng.randrange(253402300800, 10 ** 13), 10 ** 15, 2 ** 63, 2 ** 64 - 1])
     lang = rng.choice([None, b"eng", b"und", b"spa", b"zz", b"", b"ENG", "déu".encode(), b"abcd"])
     return dict(md=1, title=title, ctime=ctime, lang=lang)
 
@@ -664,9 +666,31 @@ def smallscope_histories(tier, dist, extra="", maxlen=None, finish="fins", cfgs=
     return out
 
 
+def large_frame_cases(rng, tier, dist, extra=""):
+    """frames far larger than any internal buffer a writer might use (64 KiB, 1 MiB), of lengths that are not
+    multiples of those sizes; followed by a small frame, so a lost tail shifts what comes after"""
+    out = []
+    sizes = [65536 + 7, (1 << 20) + 123] if tier == "quick" else [4096 + 1, 65536 + 7, (1 << 20) + 123, (1 << 20), 3 * (1 << 19) + 5, (1 << 21) + 1]
+    for n in sizes:
+        codec = rng.choice(["vp9", "av1"])
+        k = key_frame(rng, codec)
+        big = k + bytes(rng.randrange(256) for _ in range(64)) * ((n - len(k)) // 64 + 1)
+        big = big[:n]
+        audio = rng.choice(["none", "opus"])
+        ops = ["wv %s %s 1" % (f64bits(0.0), hx(big))]
+        if audio != "none":
+            ops.append("wa %s %s" % (f64bits(0.0), hx(audio_frame(rng, audio))))
+        ops.append("wv %s %s 0" % (f64bits(1 / 30), hx(delta_frame(rng, codec))))
+        ops.append("fins")
+        out.append(pcase(cfg_str(codec=codec, audio=audio, fast=rng.randrange(2), extra=extra), ops))
+        dist["large_frame=%d" % n] += 1
+    return out
+
+
 def gen_C01(rng, tier, dist):
     return small_exhaustive_histories(rng, dist, 100000) + \
-        gen_hist_cases(rng, tier, dist, 500, 30000, rejects=0.1) + smallscope_histories(tier, dist)
+        gen_hist_cases(rng, tier, dist, 500, 30000, rejects=0.1) + smallscope_histories(tier, dist) + \
+        large_frame_cases(rng, tier, dist) + burst_histories(rng, tier, dist)
 
 
 def gen_C02(rng, tier, dist):
@@ -729,9 +753,32 @@ def f64_palette_cases(rng, tier, dist):
     return out
 
 
+def burst_histories(rng, tier, dist, extra=""):
+    """long two-track histories with many ties: several audio packets stamped with the time of the video frame they
+    arrived with (equal ticks within one track and across tracks), 20 to 200 samples in all"""
+    out = []
+    for _ in range(12 if tier == "quick" else 300):
+        codec = rng.choice(VCODECS)
+        audio = rng.choice(["opus", "aac-lc"])
+        nv = rng.choice([6, 11, 16, 24, 40])
+        per = rng.choice([2, 3, 3, 5])
+        step = rng.choice([1 / 30, 1 / 25, 1001 / 30000])
+        ops = []
+        for i in range(nv):
+            t = i * step
+            first = rng.random() < 0.5          # audio before or after its video frame in call order
+            burst = ["wa %s %s" % (f64bits(t + (rng.choice([0.0, 0.0, 1e-6]))), hx(audio_frame(rng, audio))) for _ in range(per if rng.random() < 0.8 else 1)]
+            v = "wv %s %s %d" % (f64bits(t), hx(key_frame(rng, codec) if i == 0 else delta_frame(rng, codec)), 1 if i == 0 else 0)
+            ops += ([v] + burst) if (i == 0 or not first) else (burst + [v])
+        ops.append(rng.choice(["fin", "fins"]))
+        out.append(pcase(cfg_str(codec=codec, audio=audio, fast=rng.randrange(2), extra=extra), ops))
+        dist["burst_history_samples=%d" % (10 * ((nv * (per + 1)) // 10))] += 1
+    return out
+
+
 def gen_C15(rng, tier, dist):
     return small_exhaustive_histories(rng, dist, 100000) + \
-        gen_hist_cases(rng, tier, dist, 500, 30000, audio=None)
+        gen_hist_cases(rng, tier, dist, 500, 30000, audio=None) + burst_histories(rng, tier, dist)
 
 
 def gen_C06(rng, tier, dist):
@@ -786,7 +833,10 @@ def gen_C18(rng, tier, dist):
     for _ in range(n):
         title = rng.choice([None, b"", b"x", "Tïtle é中 \U0001F600".encode(), bytes(rng.choice(b"abc XYZ") for _ in range(rng.choice([5, 100, 5000])))])
         ctime = rng.choice([None, 0, 59, 86399, 86400, 951782399, 951782400, 951868800, 1709164800, 4107542400, 253402300799,
-                            rng.randrange(0, 253402300800), rng.randrange(0, 4102444800)])
+                            rng.randrange(0, 253402300800), rng.randrange(0, 4102444800),
+                            253402300800, rng.randrange(253402300800, 10 ** 13), 10 ** 15, 2 ** 64 - 1,
+                            # 1 March and its neighbours in century years
+                            86400 * (rng.choice([47540, 84064, 120588, 157113, 193637, 230161]) + rng.choice([-1, 0, 1])) + rng.randrange(86400)])
         lang = rng.choice([None, None] + [bytes(rng.choice(b"abcdefghijklmnopqrstuvwxyz") for _ in range(3)) for _ in range(4)] +
                           [b"", b"e", b"en", b"ENG", "dé".encode(), b"abcd", b"e1g"])
         md = dict(md=1, title=title, ctime=ctime, lang=lang)
@@ -1165,6 +1215,16 @@ def gen_C13(rng, tier, dist):
                                          else ["a%d" % rng.choice([1, 3, 10, 100000]), "i"]) for _ in range(rng.randrange(1, 25)))
             out.append(pcase(cfg + " sink=script:%s twin=nofault" % script, ops2))
             dist["script"] += 1
+        # interruptions without end: long runs of Interrupted before any progress, and a slow sink that is interrupted
+        # between most of its short writes (hundreds of interruptions inside one buffer) - none of them is a failure
+        for k in (5, 17, 33, 65, 129, 300):
+            out.append(pcase(cfg + " sink=script:%s twin=nofault" % ",".join(["a%d" % rng.choice([1, 9, 100000])] * rng.randrange(0, 3) + ["i"] * k), ops2))
+            dist["script_interrupted_run=%d" % k] += 1
+        for per in (1, 2, 3):
+            n = rng.choice([120, 400])
+            script = ",".join("i" if j % (per + 1) == per else "a%d" % rng.choice([1, 2, 7]) for j in range(n))
+            out.append(pcase(cfg + " sink=script:%s twin=nofault" % script, ops2))
+            dist["script_slow_interrupted_sink"] += 1
     return out
 
 
